@@ -10,7 +10,7 @@ from .common import call
 
 PROP = "C04"
 LEVEL = "exploration"
-CASES = {"quick": 800, "thorough": 40000}
+CASES = {"quick": 800, "thorough": 200000}
 SHARDS = {"quick": 8, "thorough": 16}
 ANCHORS = [
     "api.py:_get_duplicate_uri_prefixes", "api.py:_get_duplicate_prefixes", "api.py:Converter.__init__",
